@@ -88,6 +88,21 @@ func methodName(in []string, out string) string {
 	if out != "void" {
 		o = "R" + title(out)
 	}
+	if isX(append([]string{out}, in...)...) {
+		n := "A0"
+		if len(in) == 1 {
+			n = "P" + title(in[0])
+		} else if len(in) > 1 {
+			n = "M"
+			for _, k := range in {
+				n += title(k)
+			}
+		}
+		if _, ok := reflect.TypeOf(&FixX{}).MethodByName(n + o); ok {
+			return n + o
+		}
+		return ""
+	}
 	switch len(in) {
 	case 0:
 		return "A0" + o
@@ -126,12 +141,19 @@ func newHost(c caseT) *host {
 			}
 			if h.out != nil {
 				outs = append(outs, h.out.T)
+				if h.out.Outs != nil {
+					outs = h.out.Outs
+				}
 			}
-			fn := reflect.MakeFunc(reflect.FuncOf(ins, outs, false), func(a []reflect.Value) []reflect.Value {
+			variadic := len(h.in) > 0 && h.in[len(h.in)-1].Variadic
+			fn := reflect.MakeFunc(reflect.FuncOf(ins, outs, variadic), func(a []reflect.Value) []reflect.Value {
 				h.called++
 				h.got = append(h.got[:0], a...)
 				if h.out == nil {
 					return nil
+				}
+				if h.out.Outs != nil {
+					return curMulti
 				}
 				return []reflect.Value{h.ret}
 			})
@@ -140,10 +162,14 @@ func newHost(c caseT) *host {
 			}
 			h.callee = "gofn"
 		case "method":
-			if ctl := h.vm.(*runtime.VM).RegisterReflectClass("Fix", &Fix{}); ctl != nil {
+			cls, inst := "Fix", any(&Fix{})
+			if isX(append([]string{c.Out}, c.In...)...) {
+				cls, inst = "FixX", &FixX{}
+			}
+			if ctl := h.vm.(*runtime.VM).RegisterReflectClass(cls, inst); ctl != nil {
 				h.regErr = "RegisterReflectClass: " + ctl.AsString()
 			}
-			h.prelude = "$o = new Fix(); "
+			h.prelude = "$o = new " + cls + "(); "
 			h.callee = "$o->" + methodName(c.In, c.Out)
 		}
 	})
